@@ -143,6 +143,8 @@ def run(ctx, mine):
         inv = ["Optimal"] if mine == "C02" else ["CertifiesInv"]
         r = tlc.run_tlc("Wasserstein", workers=16, constants=cst, invariants=inv, heap="8g", timeout=7200)
         ctx.model("Wasserstein %s %s" % (cst, inv), r, constants=cst)
+    if mine == "C02":
+        ctx.liveness("Wasserstein", dict(MaxS=2, MaxT=2, MaxC=2), ["Termination"])
     rng = ctx.rng
     embs_all = all_embs()
     # R: the lattice diagrams (<=3 points on B=3) as in Bottleneck.tla's Init, sampled pairs; brute force decides
